@@ -47,4 +47,10 @@ PROPS = {
         "assumptions": [DOMAIN, "Delaunay strata use lattice scales >= 1 (default snap_radius is an absolute 1e-4 by documented design)"],
         "min_nontrivial": {"quick": 1000, "thorough": 10000},
     },
+    "C04": {
+        "budget": {"quick": 8000, "thorough": 150000},
+        "rule": "three case kinds: (pair, 6 of 8) two valid lattice (multi)polygons with holes, partner derived from the first operand (identical, translated, edge-sharing, nested, touching, empty), either ring winding, one case in five with repeated vertices incl. a repeated closing vertex; all four operations through the named method, boolean_op and the Polygon impl; membership of every quarter-lattice sample point of the envelope (exactly classified by the operands' location functions; points on a boundary skipped) in the result by an even-odd crossing test on the result rings; the three area identities within 4·pos_tol·perimeter (pos_tol = extent·2^-25 + 4 ulp(M)); result rings closed, exterior ccw, holes cw. (unary_union, 1 of 8) 2-12 consistently wound, possibly overlapping polygons: region and area equal to the fold of pairwise unions and to the exact union of the location functions. (clip, 1 of 8) a simple (multi) line string through vertices / points on edges of the polygon: inside/outside lengths against the exact split of the line at the polygon boundary (boundary-running parts may go to either side), inside+outside = total, every returned piece on the required side within the snap allowance. Non-trivial = both operands non-empty / line meets the polygon; distinct by digest.",
+        "assumptions": [DOMAIN, "the sampling oracle needs sample points farther from every input boundary than the snapping tolerance: quarter-lattice points are at least 1/(4·edge length) lattice units away, the tolerance is below 2^-12 lattice units for every generated offset/scale"],
+        "min_nontrivial": {"quick": 1000, "thorough": 10000},
+    },
 }
